@@ -100,7 +100,10 @@ static CO_ERR COTParaStoreWrite(struct CO_OBJ_T *obj, struct CO_NODE_T *node, vo
     if (CO_GET_SUB(obj->Key) == 0) {
         result = uint8->Write(obj, node, buffer, size);
     } else {
-        /* check store signature */
+        /* check store signature: all four bytes must be given */
+        if (size != 4u) {
+            return (CO_ERR_TYPE_WR);
+        }
         value = *((uint32_t *)buffer);
         if (value != CO_PARA_STORE_SIG) {
             return (CO_ERR_TYPE_WR);
